@@ -70,7 +70,7 @@ Proof.
     rewrite (slice_from_in_range (btext b) (bcur b)) by lia.
     set (after := skipn (Z.to_nat (bcur b)) (btext b)).
     assert (Hla : len after = len (btext b) - bcur b) by (unfold after; rewrite len_skipn; lia).
-    destruct (slice_to_prefix after n) as [k [Hk Hdel]].
+    destruct (slice_to_prefix after (Z.max 0 n)) as [k [Hk Hdel]].
     exists k. split; [lia|]. rewrite Hdel.
     set (del := firstn (Z.to_nat k) after).
     assert (Hld : len del = k) by (unfold del; rewrite len_firstn; lia).
